@@ -144,6 +144,8 @@ def main():
                 for suffix, v in variants(sp):
                     c = dict(space_arrays(v), **colour_dump(v))
                     c["desc"] = dict(desc, grid=gname, variant=suffix)
+                    # kinds whose arrays are built as arange over the support (C16_alias_closed_arange covers them)
+                    c["arange"] = bool(suffix) or desc["kind"] in ("DP0", "DP1", "DUAL0", "DUAL1", "BC0", "RBC0")
                     out["cases"].append(c)
                 if desc["kind"] in ("DP0", "P1", "RWG", "DUAL0", "BC0") and len(keep) < (12 if thorough else 5):
                     keep.append((desc, sp))
